@@ -392,7 +392,9 @@ def agg_all(e, n, fn):
     b = z3.Bool(e.uniq("all"))
     w = z3.Int(e.uniq("all_w"))
     e.assume(z3.Implies(b, e.forall(n, fn, name="allq")))
-    e.assume(z3.Implies(z3.Not(b), z3.And(w >= 0, w < to_z3(n), z3.Not(zb(fn(Num(w)))))))
+    wr = z3.And(w >= 0, w < to_z3(n))
+    fw = e.under(wr, lambda: zb(fn(Num(w))))
+    e.assume(z3.Implies(z3.Not(b), z3.And(wr, z3.Not(fw))))
     return BoolV(b)
 
 
@@ -567,6 +569,7 @@ class SumInfo:
         self.uf = z3.Function(eng.uniq(name), z3.IntSort(), z3.RealSort())
         eng.assume(self.uf(0) == 0)
         self.eng = eng
+        self.matched = False
 
     def upto(self, k):
         return Num(self.uf(to_z3(k)))
@@ -578,6 +581,33 @@ class SumInfo:
         """Sigma(k+1) == Sigma(k) + f(k)   (instance of the defining recursion, valid for k >= 0)"""
         kt = to_z3(k)
         self.eng.assume(z3.Implies(kt >= 0, self.uf(kt + 1) == self.uf(kt) + to_real(to_z3(lift(self.fn(k))))))
+
+
+def sum_ext(eng, a, b, label="sum_ext"):
+    """meta-rule Sigma-extensionality (trusted, by induction on n):
+       n_a == n_b  and  forall k in [0,n). f_a(k) == f_b(k)   ==>   Sigma_a(n) == Sigma_b(n)
+    The premises are proved as S-obligations on a fresh k; only then the conclusion is assumed."""
+    if not eng.must(to_z3(a.n) == to_z3(b.n)):
+        return False
+    k = eng.fresh_int("k_ext", lo=0, hi=a.n)
+    fa, fb = a.fn(k), b.fn(k)
+    ok = eng.oblige("%s.pointwise" % label, lift(fa) == fb, cls="S")
+    if ok:
+        eng.assume(a.uf(to_z3(a.n)) == b.uf(to_z3(b.n)))
+    return ok
+
+
+def sum_sign(eng, info, label="sum_positive", strict=True):
+    """meta-rule Sigma-positivity (trusted, by induction): forall k. f(k) > 0 (>= 0)  ==>  Sigma(n) > 0 if n >= 1 (>= 0)"""
+    k = eng.fresh_int("k_pos", lo=0, hi=info.n)
+    f = lift(info.fn(k))
+    ok = eng.oblige("%s.pointwise" % label, (f > 0) if strict else (f >= 0), cls="S")
+    if ok:
+        tot = info.uf(to_z3(info.n))
+        nz = to_z3(info.n)
+        eng.assume(z3.Implies(nz <= 0, tot == 0))
+        eng.assume(z3.Implies(nz >= 1, (tot > 0) if strict else (tot >= 0)))
+    return ok
 
 
 def e_sum(eng, n, fn, name="Sigma"):
@@ -749,7 +779,10 @@ class _NP:
         return self._uf1("exp", x, math.exp, ax)
 
     def log(self, x):
-        return self._uf1("log", x, math.log, None, domain=lambda v: v > 0)
+        def ax(e, v, t):
+            vr = to_real(v)
+            e.assume(z3.And(z3.Implies(vr > 1, t > 0), z3.Implies(vr == 1, t == 0), z3.Implies(z3.And(vr > 0, vr < 1), t < 0)))
+        return self._uf1("log", x, math.log, ax, domain=lambda v: v > 0)
 
     def sin(self, x):
         if is_quarter_pi(x):
